@@ -41,6 +41,7 @@ func HarnessC14_Step() {
 	viol = vOr(viol, masked != isServer)
 	hdr := 2
 	var plen uint64
+	topBit := false
 	switch {
 	case len7 == 126:
 		plen = uint64(d[2])<<8 | uint64(d[3])
@@ -48,7 +49,7 @@ func HarnessC14_Step() {
 	case len7 == 127:
 		plen = uint64(d[2])<<56 | uint64(d[3])<<48 | uint64(d[4])<<40 | uint64(d[5])<<32 | uint64(d[6])<<24 | uint64(d[7])<<16 | uint64(d[8])<<8 | uint64(d[9])
 		hdr = 10
-		viol = vOr(viol, plen >= 1<<63) // most significant bit must be 0
+		topBit = plen >= 1<<63 // most significant bit must be 0
 	default:
 		plen = uint64(len7)
 	}
@@ -62,8 +63,14 @@ func HarnessC14_Step() {
 
 	ft, err := c.advanceFrame()
 
+	if vAnd(vNot(viol), topBit) {
+		// the property only demands that such a length is never accepted as a frame
+		vAssert(err != nil, "a 64-bit length with the top bit set is never accepted as a frame")
+		vReach("step-topbit")
+		return
+	}
 	if viol {
-		vAssert(err != nil, "a frame that breaks the framing rules is rejected (reserved bits/opcodes, bad control frame, sequencing, masking, 64-bit length with the top bit set)")
+		vAssert(err != nil, "a frame that breaks the framing rules is rejected (reserved bits/opcodes, bad control frame, sequencing, masking)")
 		if err != nil {
 			frames, ok := parseFrames(fc.wire)
 			closeSent := ok && len(frames) == 1 && frames[0].opcode == 8 && len(frames[0].payload) >= 2 && frames[0].payload[0] == 0x03 && frames[0].payload[1] == 0xea
@@ -411,6 +418,11 @@ func HarnessC14_Seq() {
 		vAssert(sent[k].masked == !isServer, "frames written back are masked iff written by a client")
 	}
 	switch {
+	case violAt >= 0 && frames[violAt].topBit:
+		// the property only demands that such a length is never accepted as a frame
+		_, _, e2 := c.ReadMessage()
+		vAssert(e2 != nil, "reading fails permanently after a length with the top bit set")
+		vReach("seq-topbit")
 	case violAt >= 0:
 		good := lastClose != nil && len(lastClose.payload) >= 2 && lastClose.payload[0] == 0x03 && lastClose.payload[1] == 0xea
 		vAssert(good, "a Close frame with status 1002 is sent at the first rule violation")
